@@ -327,14 +327,19 @@ def h_other_operator(p0: int, p1: int, has_ann: bool, which: int, spec_v: int) -
 # ------------------------------------------------------------------------------ H5 the view narrowed to a handler's field
 # (field='metadata' as a whole is left out: a handler's field is an 'extra field' of the essence, so it would pull the system
 # metadata -- resourceVersion and all -- into every comparison; that is documented behaviour of a degenerate declaration)
-FIELDS = ['spec', 'metadata.annotations', 'metadata.labels', 'spec.sub']
+FIELDS = ['spec', 'metadata.annotations', 'metadata.labels', 'spec.sub', 'metadata.ownerReferences', 'status.phase']
 
 
 def h_field_view(has_lbl: bool, has_status: bool, spec_v: int, what: int, fi: int) -> bool:
     """
-    pre: 0 <= what <= 4 and 0 <= fi <= 3
+    pre: 0 <= what <= 6 and 0 <= fi <= 5
     post: _ == True
     """
+    return field_view_impl(has_lbl, has_status, spec_v, what, fi)
+
+
+def field_view_impl(has_lbl, has_status, spec_v, what, fi):
+    # (contract-free: shared with C15 h_field_pipeline)
     from vkopf.world import World, PLURAL
     import kopf
     vkopf.begin_path()
@@ -347,11 +352,14 @@ def h_field_view(has_lbl: bool, has_status: bool, spec_v: int, what: int, fi: in
     # the object was handled before: its last-handled state and a finished handler's progress are stored on it, through the
     # real storages (so the body differs from its essence by exactly the framework's own data)
     p0 = patches.Patch()
-    ds.store(body=bodies.Body(raw), patch=p0, essence=essence(ps, ds, raw))
+    # (a handler's field is an "extra field" of the essence: system metadata and status fields are compared only when a
+    # handler asks for them -- docs/kwargs.rst, diffbase.build)
+    extra = [tuple(FIELDS[fi].split('.'))]
+    ds.store(body=bodies.Body(raw), patch=p0, essence=essence(ps, ds, raw, extra_fields=extra))
     ps.store(key='earlier', record=progress.ProgressRecord(started='2020-01-01T00:00:00', retries=1, success=True, failure=False,
                                                            stopped='2020-01-01T00:00:01', purpose='create'), body=bodies.Body(raw), patch=p0)
     raw = rfc7386(raw, dict(p0))
-    before = essence(ps, ds, raw)
+    before = essence(ps, ds, raw, extra_fields=extra)
     # ... then somebody edits it
     m = raw['metadata']
     if what == 0:
@@ -363,10 +371,14 @@ def h_field_view(has_lbl: bool, has_status: bool, spec_v: int, what: int, fi: in
     elif what == 3:
         m.setdefault('annotations', {})['user/extra'] = 'added'
         raw['spec']['sub'] = {'y': 2, 'z': 3}
-    else:
+    elif what == 4:
         m['annotations'].pop('user/note', None)
         raw['spec']['sub'].pop('y')
-    after = essence(ps, ds, raw)
+    elif what == 5:
+        m['ownerReferences'] = [{'kind': 'Deployment', 'name': 'adopter', 'uid': 'o1'}]      # adopted by somebody
+    else:
+        raw.setdefault('status', {})['phase'] = 'Failed'
+    after = essence(ps, ds, raw, extra_fields=extra)
     w = World(raw)
     w.settings.persistence.progress_storage, w.settings.persistence.diffbase_storage = ps, ds
     seen = []
@@ -443,7 +455,8 @@ def obligations():
     obs.append(Ob('h_other_operator', {'progress': 'smart', 'diffbase': 'multi', 'v1': False}, tiers=('thorough',), timeout=900))
     obs += split(Ob('h_field_view', {'progress': 'annotations', 'diffbase': 'annotations', 'v1': True}, timeout=900, twins=['field_view']),
                  fi=[1, 3])
-    obs += split(Ob('h_field_view', {'progress': 'annotations', 'diffbase': 'annotations', 'v1': True}, timeout=900, tiers=('thorough',)), fi=[0, 2])
+    obs += split(Ob('h_field_view', {'progress': 'annotations', 'diffbase': 'annotations', 'v1': True}, timeout=900, tiers=('thorough',)),
+                 fi=[0, 2, 4, 5])
     obs += split(Ob('h_field_view', {'progress': 'smart', 'diffbase': 'multi', 'v1': False, 'prefix': 'my.op.io'}, timeout=900, tiers=('thorough',)),
-                 fi=[0, 1, 2, 3])
+                 fi=[0, 1, 2, 3, 4, 5])
     return obs
